@@ -486,7 +486,7 @@ func runC20(s c20Scen, c *ev.Case) *ev.Violation {
 		st := b.Srv.StatsManager()
 		// compare, polling: the broker records a received packet only after handing it to its handler
 		var last string
-		deadline := time.Now().Add(3 * time.Second)
+		deadline := time.Now().Add(10 * time.Second) // generous: the comparison leaves at the first stable agreement
 		stable := 0
 		for {
 			last = ""
